@@ -60,7 +60,8 @@ def check(ctx):
         return ctx.run_engine(exe, args + extra + ['--outdir', vlib.OUT], label=label, timeout=dl + 400)
     # the slow ones first
     slow = ('llp', 'lfq', 'll', 'lhq', 'ltq', 'pbq')
-    jobs.sort(key=lambda j: (0 if j[0].startswith('conc') else 1, 0 if j[0].split('_')[1] in slow else 1))
+    # quick: the cheap sequence legs first (seconds), then the concurrent legs, slow modules first; thorough: concurrent legs first
+    jobs.sort(key=lambda j: ((1 if j[0].startswith('conc') else 0) if quick else (0 if j[0].startswith('conc') else 1), 0 if j[0].split('_')[1] in slow else 1))
     with ThreadPoolExecutor(max_workers=max(2, vlib.NJOBS // 2)) as ex:
         list(ex.map(one, jobs))
     ctx.legs.sort(key=lambda l: (l.get('leg', ''), l.get('name', '')))
